@@ -109,3 +109,40 @@ Proof.
   - intros H (s & E & Hb). rewrite H, Hb. reflexivity.
 Qed.
 End L.
+
+(* the comparison keys form a strict total order (used by C06 for lns) *)
+Lemma key_lt_irrefl p : key_lt p p = false.
+Proof. unfold key_lt. rewrite !Z.ltb_irrefl, Z.eqb_refl. reflexivity. Qed.
+Lemma key_lt_trans p q r : key_lt p q = true -> key_lt q r = true -> key_lt p r = true.
+Proof.
+  unfold key_lt. intros H1 H2.
+  apply orb_true_iff in H1. apply orb_true_iff in H2. apply orb_true_iff.
+  destruct H1 as [H1|H1], H2 as [H2|H2];
+    repeat match goal with
+    | H : _ && _ = true |- _ => apply andb_true_iff in H; destruct H
+    | H : Z.ltb _ _ = true |- _ => apply Z.ltb_lt in H
+    | H : Z.eqb _ _ = true |- _ => apply Z.eqb_eq in H
+    end.
+  - left. apply Z.ltb_lt. lia.
+  - left. apply Z.ltb_lt. lia.
+  - left. apply Z.ltb_lt. lia.
+  - right. apply andb_true_iff. split; [apply Z.eqb_eq; lia|apply Z.ltb_lt; lia].
+Qed.
+Lemma key_trichotomy p q : key_lt p q = true \/ key_eq p q = true \/ key_lt q p = true.
+Proof.
+  unfold key_lt, key_eq.
+  destruct (Z.lt_trichotomy (fst p) (fst q)) as [H|[H|H]].
+  - left. apply orb_true_iff. left. apply Z.ltb_lt. exact H.
+  - destruct (Z.lt_trichotomy (snd p) (snd q)) as [G|[G|G]].
+    + left. apply orb_true_iff. right. apply andb_true_iff. split; [apply Z.eqb_eq|apply Z.ltb_lt]; assumption.
+    + right. left. apply andb_true_iff. split; apply Z.eqb_eq; assumption.
+    + right. right. apply orb_true_iff. right. apply andb_true_iff. split; [apply Z.eqb_eq; lia|apply Z.ltb_lt; assumption].
+  - right. right. apply orb_true_iff. left. apply Z.ltb_lt. exact H.
+Qed.
+Lemma key_lt_not_eq p q : key_lt p q = true -> key_eq p q = false.
+Proof.
+  unfold key_lt, key_eq. intro H. apply orb_true_iff in H. apply andb_false_iff.
+  destruct H as [H|H].
+  - left. apply Z.ltb_lt in H. apply Z.eqb_neq. lia.
+  - apply andb_true_iff in H. destruct H as [_ H]. right. apply Z.ltb_lt in H. apply Z.eqb_neq. lia.
+Qed.
